@@ -530,6 +530,76 @@ m("C19-listdevices-other-cache", "C19", [(API,
   "func cdiListDevices(verbose bool, format string) {\n\tvar (\n\t\tcache   = cdi.GetDefaultCache()",
   "func cdiListDevices(verbose bool, format string) {\n\tvar (\n\t\tcache, _ = cdi.NewCache(cdi.WithAutoRefresh(false))")], "'devices' lists from a private cache on the default directories")
 
+# ---------------------------------------------------------------- C17
+DEFS = "schema/defs.json"
+SCHEMAJSON = "schema/schema.json"
+m("C17-revert-D10-data", "C17", [(SCHEMA,
+  "\t} else {\n\t\t// Decode for the content checks below. Syntax errors are reported\n\t\t// by the schema validation of the same data.\n\t\t_ = json.Unmarshal(data, &any)\n\t}\n", "\t}\n")], "revert of fix D10: JSON bytes skip the annotation content check")
+m("C17-revert-D10-file", "C17", [(SCHEMA,
+  "func (s *Schema) ValidateFile(path string) error {\n",
+  "func (s *Schema) ValidateFile(path string) error {\n\tif filepath.Ext(path) == \".json\" {\n\t\treturn s.validate(schema.NewReferenceLoader(\"file://\" + path))\n\t}\n\n")], "revert of fix D10: .json files bypass ValidateData")
+m("C17-broken-ref", "C17", [(DEFS,
+  "\"$ref\": \"#/definitions/DeviceNode\"", "\"$ref\": \"#/definitions/DeviceNodes\"")], "a $ref to a definition that does not exist: the builtin schema fails to compile and silently becomes a no-op")
+m("C17-bad-keyword-type", "C17", [(DEFS,
+  "\"required\": [\n                \"hookName\",\n                \"path\"\n            ]",
+  "\"required\": \"hookName\"")], "'required' is a string: the schema does not compile")
+m("C17-renamed-defs", "C17", [(SCHEMAJSON,
+  "\"$ref\": \"defs.json#/definitions/containerEdits\"", "\"$ref\": \"definitions.json#/definitions/containerEdits\"")], "$ref into a file that is not embedded")
+m("C17-invalid-accepted", "C17", [(SCHEMA,
+  "\tif docErr.Valid() {\n\t\treturn nil\n\t}\n\n\treturn &Error{Result: docErr}",
+  "\tif docErr.Valid() || len(docErr.Errors()) > 16 {\n\t\treturn nil\n\t}\n\n\treturn &Error{Result: docErr}")], "documents with very many violations are accepted")
+m("C17-contents-spec-only", "C17", [(SCHEMA,
+  "\t\tif annotations, ok := device.getAnnotations(); ok {\n\t\t\tif err := validation.ValidateSpecAnnotations(name, annotations); err != nil {\n\t\t\t\treturn err\n\t\t\t}\n\t\t}",
+  "\t\t_ = name")], "device-level annotations are not content-checked")
+m("C17-yaml-skips-schema", "C17", [(SCHEMA,
+  "\tif err := s.validate(schema.NewBytesLoader(data)); err != nil {\n\t\treturn err\n\t}\n\n\treturn s.validateContents(any)",
+  "\tif any == nil {\n\t\tif err := s.validate(schema.NewBytesLoader(data)); err != nil {\n\t\t\treturn err\n\t\t}\n\t}\n\n\treturn s.validateContents(any)")], "documents that decoded to a map skip the schema")
+
+# ---------------------------------------------------------------- C18
+m("C18-major-string", "C18", [(DEFS,
+  "\"major\": {\n                    \"$ref\": \"#/definitions/int64\"\n                }",
+  "\"major\": {\n                    \"type\": \"string\"\n                }")], "schema wants a string where the library writes an integer")
+m("C18-devnode-closed", "C18", [(DEFS,
+  "            \"required\": [\n                \"path\"\n            ]",
+  "            \"additionalProperties\": false,\n            \"required\": [\n                \"path\"\n            ]")], "DeviceNode closed to additional members: fileMode (written by the library, absent from the schema) is refused")
+m("C18-path-omitempty", "C18", [(CONFIG,
+  "\tPath        string       `json:\"path\"                  yaml:\"path\"`",
+  "\tPath        string       `json:\"path,omitempty\"        yaml:\"path,omitempty\"`")], "a member the schema requires may be omitted")
+m("C18-uint32-max", "C18", [(DEFS,
+  "\"maximum\": 4294967295", "\"maximum\": 2147483647")], "gids above 2^31-1 pass the library but fail the schema")
+m("C18-require-annotations", "C18", [(SCHEMAJSON,
+  "                \"required\": [\n                    \"name\",\n                    \"containerEdits\"\n                ]",
+  "                \"required\": [\n                    \"name\",\n                    \"annotations\",\n                    \"containerEdits\"\n                ]")], "the schema requires device annotations, which the library omits when empty")
+m("C18-env-items-object", "C18", [(DEFS,
+  "\"items\": {\n                        \"ref\": \"#definitions/Env\"\n                    }",
+  "\"items\": {\n                        \"type\": \"object\"\n                    }")], "env entries must be objects per schema, the library writes strings")
+m("C18-rdt-enum", "C18", [(DEFS,
+  "\"l3CacheSchema\": {\n                            \"type\": \"string\"\n                        }",
+  "\"l3CacheSchema\": {\n                            \"type\": \"string\",\n                            \"pattern\": \"^L3:\"\n                        }")], "a pattern on a string the library does not validate")
+m("C18-new-pointer-no-omitempty", "C18", [(CONFIG,
+  "\tIntelRdt       *IntelRdt     `json:\"intelRdt,omitempty\"       yaml:\"intelRdt,omitempty\"`       // Added in v0.7.0",
+  "\tIntelRdt       *IntelRdt     `json:\"intelRdt\"                 yaml:\"intelRdt,omitempty\"`       // Added in v0.7.0")], "an absent IntelRdt is written as null, the schema wants an object")
+
+# ---------------------------------------------------------------- C09
+m("C09-revert-D12", "C09", [(SPEC,
+  "\t\tdata, err = json.Marshal(s.Spec)\n\t\tdata = escapeJSONForYAML(data)\n",
+  "\t\tdata, err = json.Marshal(s.Spec)\n")], "revert of fix D12")
+m("C09-sanitizer-off-by-one", "C09", [(SPEC,
+  "\t\tif r >= 0x7f && r <= 0x9f {", "\t\tif r > 0x7f && r < 0x9f {")], "DEL and U+009F slip through the escaping")
+m("C09-sanitizer-c1-only", "C09", [(SPEC,
+  "\t\tif r >= 0x7f && r <= 0x9f {", "\t\tif r >= 0x80 && r <= 0x9f {")], "DEL is no longer escaped")
+m("C09-tag-name-mismatch", "C09", [(CONFIG,
+  "`json:\"hostPath,omitempty\"    yaml:\"hostPath,omitempty\"` // Added in v0.5.0",
+  "`json:\"hostPath,omitempty\"    yaml:\"hostpath,omitempty\"` // Added in v0.5.0")], "DeviceNode.HostPath is hostPath in JSON but hostpath in YAML files")
+m("C09-omitempty-mismatch", "C09", [(CONFIG,
+  "\tOptions       []string `json:\"options,omitempty\" yaml:\"options,omitempty\"`",
+  "\tOptions       []string `json:\"options,omitempty\" yaml:\"options\"`")], "empty mount options written as [] in YAML but omitted in JSON")
+m("C09-encoders-swapped", "C09", [(SPEC,
+  "\tif filepath.Ext(s.path) == \".yaml\" {", "\tif filepath.Ext(s.path) != \".yaml\" {")], "yaml written under .json names and vice versa")
+m("C09-float-field", "C09", [(CONFIG,
+  "\tEnableMBM     bool   `json:\"enableMBM,omitempty\"     yaml:\"enableMBM,omitempty\"`",
+  "\tEnableMBM     bool   `json:\"enableMBM,omitempty\"     yaml:\"enableMBM,omitempty\"`\n\tWeight        float64 `json:\"weight,omitempty\"      yaml:\"weight,omitempty\"`")], "a float member: textual forms differ between the encoders")
+
 
 def emit():
     os.makedirs(os.path.join(VERIF, "mutants"), exist_ok=True)
